@@ -34,3 +34,24 @@ const void *BODY(CTX *ctx, const void *data, unsigned long size)
   return p + size;
 }
 #endif
+
+#ifdef T_SHA256
+unsigned char vf_blk2[4][128];
+uint32_t vf_state32[8];
+void __CPROVER_file_local_alg_sha256_c_SHA256_Transform(uint32_t *state, const uint8_t *block, uint32_t *W, uint32_t *S)
+{
+  if (vf_blk_n < 4) for (int i = 0; i < 64; i++) vf_blk2[vf_blk_n][i] = block[i];
+  vf_blk_n++;
+  for (int i = 0; i < 8; i++) { state[i] = nondet_u32(); vf_state32[i] = state[i]; }
+}
+#endif
+#ifdef T_SHA512
+unsigned char vf_blk2[4][128];
+uint64_t vf_state64[8];
+void __CPROVER_file_local_alg_sha512_c_SHA512_Transform(uint64_t *state, const unsigned char *block)
+{
+  if (vf_blk_n < 4) for (int i = 0; i < 128; i++) vf_blk2[vf_blk_n][i] = block[i];
+  vf_blk_n++;
+  for (int i = 0; i < 8; i++) { state[i] = nondet_u64(); vf_state64[i] = state[i]; }
+}
+#endif
